@@ -162,8 +162,10 @@ class Job:
             cmd = ["cargo", "+nightly", "miri", "run", "-q", "--bin", self.bin, "--target-dir", os.path.join(BUILD, "miri"), "--"] + self.args
             return cmd, env, HARNESS
         if self.mode == "memcheck":
-            cmd = ["valgrind", "--error-exitcode=99", "--leak-check=full", "--errors-for-leak-kinds=definite,indirect",
-                   "--num-callers=30", "-q"] + self.valgrind_args + [bin_path("rel", self.bin)] + self.args
+            leak = ["--leak-check=full", "--errors-for-leak-kinds=definite,indirect"]
+            if "--leak-check=no" in self.valgrind_args:
+                leak = []
+            cmd = ["valgrind", "--error-exitcode=99"] + leak + ["--num-callers=30", "-q"] + self.valgrind_args + [bin_path("rel", self.bin)] + self.args
             return cmd, env, HARNESS
         if self.mode == "asan":
             env.setdefault("ASAN_OPTIONS", "detect_leaks=1:halt_on_error=1:abort_on_error=0:exitcode=98:detect_stack_use_after_return=0")
